@@ -76,22 +76,25 @@ Qed.
 Lemma julian2jdn_ok y o : in_i32 y -> 1 <= o <= 366 ->
   inner_julian2jdn y o = Ret (chk_jdn (J0 y + o - 1)).
 Proof.
-  intros Hy Ho. unfold inner_julian2jdn, chk_jdn, in_i32b. consts. unfold i32_checked_sub.
-  destruct (Z_le_gt_dec (y - -4712) i32_max) as [Fit|Over].
-  - rewrite chko_ok by range. unfold inner_compose_julian. consts.
-    set (years := y - -4712) in *.
-    destruct ((years <? -5879490) || (years =? -5879490) && (o <? 75) || (years =? 5879489) && (290 <? o) || (5879489 <? years)) eqn:G.
-    + f_equal. unfold J0 in *. replace (_ && _) with false; [reflexivity|]. subst years. range.
-    + replace (negb (0 <? o)) with false by lia.
-      rewrite i32_mul_ok by (subst years; range). cbn [bind].
-      rewrite i32_add_ok by (subst years; range). cbn [bind].
-      rewrite i32_sub_ok by (subst years; range). cbn [bind].
-      rewrite i32_div_euclid_pos by (subst years; range). cbn [bind].
-      rewrite u32_sub_ok by range. cbn [bind]. rewrite to_i32_id by range.
-      rewrite i32_add_ok by (subst years; range). cbn [bind].
-      rewrite i32_add_ok by (subst years; range). cbn [bind].
-      f_equal. unfold J0. replace (_ && _) with true by (subst years; range). f_equal. subst years. lia.
-  - rewrite chko_none by range. f_equal. unfold J0. replace (_ && _) with false; [reflexivity|]. range.
+  intros Hy Ho. unfold inner_julian2jdn, chk_jdn. autounfold with gen_new. unfold inner_compose_julian. autounfold with gen_new. consts.
+  unfold i32_checked_sub.
+  (* the documented range of the proleptic Julian calendar is exactly where the day number fits 32 bits *)
+  assert (JD : in_i32b (J0 y + o - 1) =
+               negb ((y + 4712 <? -5879490) || (y + 4712 =? -5879490) && (o <? 75) || (y + 4712 =? 5879489) && (290 <? o) || (5879489 <? y + 4712))).
+  { unfold in_i32b, J0. destruct ((y + 4712 <? -5879490) || (y + 4712 =? -5879490) && (o <? 75) || (y + 4712 =? 5879489) && (290 <? o) || (5879489 <? y + 4712)) eqn:G; cbn [negb]; range. }
+  destruct (in_i32b (J0 y + o - 1)) eqn:Fit.
+  - assert (YR : -5879490 <= y + 4712 <= 5879489) by lia.
+    rewrite chko_ok by range. cbn [bind negb andb orb].
+    unfold in_i32b, J0 in Fit.
+    repeat first [ mstep1 | progress cmp_simpl | progress cbn [bind negb andb orb]
+                 | match goal with |- context[if ?c then _ else _] => destruct c eqn:? end ];
+      first [ f_equal; f_equal; unfold J0; lia | exfalso; lia ].
+  - destruct (Z_le_gt_dec (y - -4712) i32_max) as [In|Over].
+    + rewrite chko_ok by range.
+      repeat first [ progress cbn [bind negb andb orb] | progress cmp_simpl
+                   | match goal with |- context[if ?c then _ else _] => destruct c eqn:? end ];
+        first [ reflexivity | exfalso; lia ].
+    + rewrite chko_none by range. reflexivity.
 Qed.
 
 Lemma gregorian2jdn_ok y o : in_i32 y -> 1 <= o <= 366 ->
